@@ -6,6 +6,7 @@ from contracts.c03_symbols import CONTRACTS as SYMBOL_CONTRACTS  # combine + bui
 from contracts.c05_solve import SolveContract
 from props.parser_bounded import Classification
 from verif.crosscheck import TARGETS as _XT, EncoderCrossCheck
+from contracts.c01_tokeniser import TokeniserLemma
 from verif.spec import PropertySpec
 
 _tier = os.environ.get('VERIF_TIER', 'quick')
@@ -13,7 +14,7 @@ _seed = int(os.environ.get('VERIF_SEED', '0'))
 
 PROPERTY = PropertySpec(
     id='C03',
-    contracts=list(SYMBOL_CONTRACTS) + [SolveContract(), ProgramsContract(catalogue(_tier, _seed))],
+    contracts=list(SYMBOL_CONTRACTS) + [SolveContract(), ProgramsContract(catalogue(_tier, _seed)), TokeniserLemma()],
     bounded=[Classification()],
     level='other',
     explanation='Symbol.combine proved for all inputs (every dynamic type of lags/leads/equation/code, every type pair): stronger of the two '
